@@ -118,6 +118,17 @@ func opSig(o op) string {
 	if (o.K == "Append" || o.K == "AppendLL" || o.K == "AppendSlice") && o.J == 1 {
 		s += "(realloc)"
 	}
+	if o.K == "AppendN" {
+		s += fmt.Sprintf("(%d values)", o.N)
+	}
+	if o.K == "Tuple" {
+		var l, r []string
+		for x := range o.Ds {
+			l = append(l, o.Ds[x].shape())
+			r = append(r, o.Ss[x].shape())
+		}
+		return s + " dst=" + strings.Join(l, ",") + " src=" + strings.Join(r, ",")
+	}
 	return s + " dst=" + o.D.shape() + " src=" + o.S.shape()
 }
 
@@ -651,6 +662,10 @@ var allKinds = []string{"AssignVar", "Deref", "SetLit", "SetField", "SetElem", "
 	"IdxAssign", "RebindAssign", "PassByValue", "ReturnComposite", "RangeArray", "RangeSlice", "Capture",
 	"CallFunc", "Box", "Unbox", "BindMV"}
 
+// kinds added later: they are enabled in their own families and in the simulation only, so that
+// the edge sets of the older families stay what they were
+var newKinds = []string{"AppendN", "Tuple", "MapTuple"}
+
 type family struct {
 	name      string
 	roots     []string
@@ -661,6 +676,7 @@ type family struct {
 	maxIdx    int
 	copyTypes []string
 	excl      []string
+	native    int // 1 in `native` agreeing histories is also built natively (0: tier default)
 }
 
 func without(xs []string, drop ...string) []string {
@@ -781,6 +797,11 @@ func families(quick bool) []family {
 		{name: "pointers", roots: []string{"p", "ps", "s"}, init: "rich", steps: 2, maxSel: 1, maxIdx: 1, copyTypes: ct},
 		{name: "funcs", roots: []string{"f1", "s", "ps", "e"}, kinds: bindKinds, init: "rich", steps: 3, maxSel: 1, maxIdx: 1, copyTypes: []string{"S", "F"}},
 		{name: "zero", roots: []string{"s", "l", "m", "p", "e", "f1"}, init: "zero", steps: 2, maxSel: 1, maxIdx: 1, copyTypes: ct},
+		// tuple assignments through aliases: every instance in the populated pool (1 step)
+		{name: "tuple", roots: []string{"a", "s", "l", "k", "ll", "as", "m", "ms", "p", "ps", "i"}, kinds: []string{"Tuple", "MapTuple"}, init: "rich", steps: 1, maxSel: 2, maxIdx: 3, copyTypes: ct},
+		// multi-value appends (capacity by the runtime's growth rule), then appends from the same base / element updates
+		{name: "append", roots: []string{"l", "k", "ll"}, kinds: []string{"AppendN", "SetElem"}, init: "rich", steps: 2, maxSel: 1, maxIdx: 2, copyTypes: ct, native: 40},
+		{name: "append0", roots: []string{"l", "k", "ll"}, kinds: []string{"AppendN", "SetElem", "Slice2"}, init: "zero", steps: 2, maxSel: 1, maxIdx: 2, copyTypes: ct, native: 40},
 	}
 	if !quick {
 		fs = []family{
@@ -793,6 +814,10 @@ func families(quick bool) []family {
 			{name: "funcs", roots: []string{"f1", "s", "as", "ps", "ms", "e"}, kinds: bindKinds, init: "rich", steps: 3, maxSel: 1, maxIdx: 1, copyTypes: []string{"S", "F"}},
 			{name: "funcs2", roots: []string{"f1", "f2", "e", "a", "s", "i"}, init: "rich", steps: 2, maxSel: 1, maxIdx: 1, copyTypes: ct},
 			{name: "zero", roots: []string{"a", "s", "l", "ll", "ms", "m", "p", "ps", "i", "f1", "e"}, init: "zero", steps: 2, maxSel: 1, maxIdx: 1, copyTypes: ct},
+			{name: "tuple", roots: []string{"a", "s", "l", "k", "ll", "as", "m", "ms", "p", "ps", "i"}, kinds: []string{"Tuple", "MapTuple"}, init: "rich", steps: 1, maxSel: 3, maxIdx: 3, copyTypes: ct},
+			{name: "tuple2", roots: []string{"a", "s", "l", "k", "m", "p", "q", "ps", "i"}, kinds: []string{"Tuple", "MapTuple", "AddrOf", "Slice2", "SetMapEntry"}, init: "rich", steps: 2, maxSel: 1, maxIdx: 3, copyTypes: ct},
+			{name: "append", roots: []string{"l", "k", "ll"}, kinds: []string{"AppendN", "SetElem", "Slice2"}, init: "rich", steps: 2, maxSel: 1, maxIdx: 2, copyTypes: ct, native: 20},
+			{name: "append0", roots: []string{"l", "k", "ll"}, kinds: []string{"AppendN", "SetElem", "Slice2"}, init: "zero", steps: 3, maxSel: 1, maxIdx: 2, copyTypes: ct, native: 20},
 		}
 	}
 	return fs
@@ -810,7 +835,8 @@ func (ck *checker) generate() error {
 	simJVMs, simNum := c.Pick(2, 16), c.Pick(100, 320)
 	bfsWorkers := c.Pick(2, 2)
 	simFam := family{name: "sim", roots: fullPool, init: "rich", steps: 25, maxSel: 3, maxIdx: 3, copyTypes: []string{"int", "A", "S", "L", "AS", "PI", "F", "M", "MS"},
-		excl: []string{"F_C04_1", "F_C04_2", "F_C04_3"}}
+		kinds: append(append([]string{}, allKinds...), newKinds...),
+		excl:  []string{"F_C04_3"}} // F-C04-1 and F-C04-2 are repaired: their constructs are back in the random tier
 	if only == "" || only == "sim" {
 		for j := 0; j < simJVMs; j++ {
 			f := simFam
@@ -830,7 +856,11 @@ func (ck *checker) generate() error {
 	}
 	// pipeline: TLC jobs on a few lanes, emitted behaviours are handed in batches to
 	// processing workers (interpreter children) while TLC keeps running
-	batches := make(chan []*kase, 64)
+	type batch struct {
+		ks     []*kase
+		native int
+	}
+	batches := make(chan batch, 64)
 	var pw sync.WaitGroup
 	const procWorkers = 4
 	for w := 0; w < procWorkers; w++ {
@@ -838,7 +868,11 @@ func (ck *checker) generate() error {
 		go func() {
 			defer pw.Done()
 			for b := range batches {
-				ck.process(b, 16/procWorkers, nativeEvery)
+				ne := nativeEvery
+				if b.native > 0 && (ne == 0 || b.native < ne) {
+					ne = b.native
+				}
+				ck.process(b.ks, 16/procWorkers, ne)
 			}
 		}()
 	}
@@ -859,7 +893,7 @@ func (ck *checker) generate() error {
 				var perr error
 				flush := func() {
 					if len(buf) > 0 {
-						batches <- buf
+						batches <- batch{buf, j.fam.native}
 						buf = nil
 					}
 				}
